@@ -87,11 +87,23 @@ def is_variant(t, variant):
         return T if variant == 'Ok' else F
     if t[0] == 'none':
         return T if variant == 'None' else F
+    if t[0] == 'err':
+        return F        # asked for Ok / Some (Err and None are handled above through the negation)
     if t[0] == 'adt' and len(t) > 2:
         return T if t[2] == variant else F
     if t[0] == 'ite':
         return Or(And(t[1], is_variant(t[2], variant)), And(Not(t[1]), is_variant(t[3], variant)))
     return Atom(('is', t, variant))
+
+
+def _only_err(v):
+    """the value `x?` returns early with: x restricted to its error cases"""
+    if isinstance(v, tuple) and v:
+        if v[0] == 'ite' and len(v) == 4:
+            return mk_ite(v[1], _only_err(v[2]), _only_err(v[3]))
+        if v[0] in ('ok', 'some'):
+            return ('unreachable',)
+    return v
 
 
 def split_ite_args(term, limit=8):
@@ -343,6 +355,13 @@ class Walker:
         if not top:
             self.__dict__.setdefault('inlined_fns', set()).add(fn_path)
         frame = Frame(fn_path, shell)
+        # local accumulators live in one walker-level table; a helper that is looked through twice gets distinct locals
+        frame.local_colls = self.__dict__.setdefault('_all_local_colls', {})
+        if not top and closure_env is None:
+            self._inst = getattr(self, '_inst', 0) + 1
+            frame.inst = self._inst
+        else:
+            frame.inst = 0 if top else getattr(self.fr, 'inst', 0) if self.frames else 0
         # async fn: parameters live in the shell, the code in {closure#0}
         params = shell.get('params', [])
         if ir.is_async_shell(shell) and (fn_path + '::{closure#0}') in prog.bodies:
@@ -397,13 +416,13 @@ class Walker:
                 self.fr.env[vid] = ('mvar', p['n'], vid)
                 self.emit('assign', p, pc, lhs=('mvar', p['n'], vid), rhs=v, init=True)
             elif isinstance(v, tuple) and v and v[0] == 'fresh':
-                self.fr.env[vid] = ('local', p['n'], vid)
+                self.fr.env[vid] = ('local', p['n'], self._lid(vid))
             elif isinstance(v, tuple) and v and v[0] in ('lit', 'fmt') and 'Mut' in p.get('mode', '') and \
                     self.prog.types[p['ty']] == 'std::string::String':
                 # a `let mut s = "..".to_string()` accumulator: its later appends are local mutations
-                loc = ('local', p['n'], vid)
+                loc = ('local', p['n'], self._lid(vid))
                 self.fr.env[vid] = loc
-                self.fr.local_colls.setdefault(vid, []).append(dict(method='init', value=v, pc=pc, loops=tuple(self.loops), node=p))
+                self.fr.local_colls.setdefault(loc[2], []).append(dict(method='init', value=v, pc=pc, loops=tuple(self.loops), node=p))
                 self.emit('local_mut', p, pc, local=loc, method='init', args=[v])
             else:
                 self.fr.env[vid] = v
@@ -641,12 +660,14 @@ class Walker:
             ty = self.prog.ty(n['e'])
         except Exception:
             ty = ''
-        if ty and not any(x in ty for x in self._IO_ERR) and (ty.startswith('std::result::Result<') or ty.startswith('std::option::Option<')):
+        structured = isinstance(v, tuple) and v and v[0] in ('ite', 'ok', 'err', 'some', 'none')   # e.g. the value of a looked-through helper
+        if ty and (structured or not any(x in ty for x in self._IO_ERR)) and \
+                (ty.startswith('std::result::Result<') or ty.startswith('std::option::Option<')):
             okv = 'Some' if ty.startswith('std::option::Option<') else 'Ok'
             cond = is_variant(v, okv)
             if cond != T:
                 if cond != F:
-                    self.fr.returns.append((And(pc, c, Not(cond)), v if okv == 'Ok' else ('none',)))
+                    self.fr.returns.append((And(pc, c, Not(cond)), _only_err(v) if okv == 'Ok' else ('none',)))
                 return payload(v, okv), And(c, cond)
         return payload(v, 'Ok'), c
 
@@ -893,6 +914,11 @@ class Walker:
                 v, c = self.ev(a, And(pc, cont))
                 args.append(v)
                 cont = And(cont, c)
+            cd = self.closure_def(fv)
+            if cd is not None:
+                # a closure passed in as a parameter (`name_of: impl Fn(&T) -> &String`) and called here
+                val, c2 = self.apply_closure(cd, args, And(pc, cont))
+                return val, cont
             self.emit('call', n, pc, callee=None, fnval=fv, args=args, name=None)
             return ('call', None, fv) + tuple(args), cont
         path = fn.get('resolved') or fn['path']
@@ -907,6 +933,10 @@ class Walker:
         pc2 = And(pc, cont)
         val = self.model_call(n, fn, path, name, args, pc2)
         return val, cont
+
+    def _lid(self, vid):
+        inst = getattr(self.fr, 'inst', 0)
+        return vid if not inst else (vid, inst)
 
     def closure_def(self, v):
         if isinstance(v, tuple) and v and v[0] == 'closure':
@@ -1081,6 +1111,18 @@ class Walker:
                 return recv
 
         # ---- maps and sets
+        # <F as Fn>::call(&f, (args,)) on a closure value
+        if name in ('call', 'call_mut', 'call_once') and cl and cl[0] and ('Fn' in (fn.get('trait') or '') or 'ops::function' in path):
+            targs = list(args[1][1:]) if len(args) > 1 and isinstance(args[1], tuple) and args[1][:1] == ('tuple',) else list(args[1:])
+            val, _ = self.apply_closure(cl[0], targs, pc)
+            return val
+        # bool::then(|| v) / bool::then_some(v)
+        if name == 'then' and len(args) == 2 and cl[1] and (recv_ty or '').replace('&', '').strip() == 'bool':
+            cond = as_formula(recv)
+            cv, _ = self.apply_closure(cl[1], [], And(pc, cond))
+            return mk_ite(cond, ('some', cv), ('none',))
+        if name == 'then_some' and len(args) == 2 and (recv_ty or '').replace('&', '').strip() == 'bool':
+            return mk_ite(as_formula(recv), ('some', args[1]), ('none',))
         # entry API: map.entry(k).or_default() / or_insert(v) / or_insert_with(f) is the slot of k (created when absent)
         if name in ('or_default', 'or_insert', 'or_insert_with') and isinstance(recv, tuple) and recv[:1] == ('call',) and \
                 recv[1].split('::')[-1] == 'entry' and len(recv) >= 4:
